@@ -89,15 +89,27 @@ PROPS["C16"] = {
             "serial LevelDB persisters built by factory.NewDB behind a stub failing Put/Get/Has/Remove on the per-operation oracle (a failure every 4..12 calls), "
             "aliases PutInEpoch/GetFromEpoch/SearchFirst/RemoveFromCurrentEpoch, cold reads. Non-trivial = hits a recorded situation (eviction, cache-miss-refill, "
             "failed-put(-over-cached-value), failed-remove, failed-get/has, overwrite, clear-cache, bulk-swallowed-read-error ...). "
+            "Life-cycle operations: a second exhaustive family - every sequence of <= 3 (quick) / 4 (thorough) of seven operations (Put k1, Put k2, Get k1, Has k2, RangeKeys, DestroyUnit, Close), "
+            "with no failure or exactly one failing persister call (Close / Destroy included) at every position, for LRU cap 2, SizeLRU cap 2, FIFOSharded cap 3; random: 2 histories in 5 carry RangeKeys / "
+            "DestroyUnit / Close at 1 position in 5 (half of the DestroyUnit / Close made to fail by the stub; a successful one in the middle of a history only over memorydb, over LevelDB only failing ones or a "
+            "successful DestroyUnit as last operation). Situations: range-keys(-more-than-cached), DestroyUnit/Close-clears-nonempty-cache, failed-Close/-DestroyUnit(-still-clears-cache), destroy-nonempty-unit, close-ok. "
             "extra: factory guard grid (see extra_checks.rule)",
     "explanation": "Theorems (Props/C16.v) hold for ANY cacher satisfying cacher_laws, all histories, all failure oracles. Correspondence compares only "
                    "policy-independent observables (Get/Has/Bulk answers, error classes of Put/Remove, direct persister reads per key), so the executable model "
-                   "(SmallCache) stands for every lawful cacher; monitors evaluate the property text with direct reads of the injected cacher and persister.",
+                   "(SmallCache) stands for every lawful cacher; monitors evaluate the property text with direct reads of the injected cacher and persister. "
+                   "RangeKeys / DestroyUnit / Close (not named by the property text; added because they are reachable through the same API) are modelled as life-cycle operations interleaved with the data operations "
+                   "(C16_map_lifecycle, C16_range_keys, C16_destroy_unit, C16_close): RangeKeys hands over exactly the map of acknowledged writes whatever the cache holds (compared over memorydb, "
+                   "where everything is written through; over LevelDB the monitor compares with the persister's own RangeKeys); DestroyUnit / Close clear the cache in every case, return the persister's error, "
+                   "and an acknowledged DestroyUnit empties the persister (compared: error classes, number of cache entries afterwards, direct persister reads; monitors: cache empty, persister empty, Get/Has not found).",
     "assumptions": ["a failing persister call has no effect (stub fails before reaching the persister)",
                     "callers do not mutate slices passed to Put or returned by Get (the unit caches and returns them by reference; LevelDB copies)",
                     "sequential use (concurrency is C14); non-empty keys, non-nil non-empty values",
                     "LRU / SizeLRU / FIFOSharded satisfy cacher_laws (validated here differentially; instances proved where Props/C16.v says so)",
-                    "GetBulkFromEpoch omits (with a nil error) a key whose persister read failed: 'found' is read as 'the read succeeded' (C16_bulk guard; unguarded reading refuted by witness)"],
+                    "GetBulkFromEpoch omits (with a nil error) a key whose persister read failed: 'found' is read as 'the read succeeded' (C16_bulk guard; unguarded reading refuted by witness)",
+                    "what a persister answers after a SUCCESSFUL Close is not modelled (C09 does that for LevelDB; memorydb.Close does nothing): a history continues after a successful Close / DestroyUnit only over memorydb",
+                    "a successful DestroyUnit leaves the unit coherent only if the cacher's Clear forgets everything (clear_forgets: proved for the LRU cachers, false of the FIFO cache for the EMPTY key - "
+                    "C16_destroy_unit_fifo_refuted, same root as F12, outside the domain of non-empty keys)",
+                    "Get's '!okAssertion' branch (the shared cacher holds a value that is not a []byte) and GetOldestEpoch (constant error) are not modelled; RangeKeys is driven with a handler that never stops early"],
 }
 
 PERSIST_ASSUME = ["goleveldb applies a batch atomically in record order and a cleanly closed database reopens with the same content (disk modelled as an association list)",
@@ -170,18 +182,25 @@ PROPS["C15"] = {
 PROPS["C17"] = {
   # only observables that do not depend on WHICH entry the memory tier evicts (that is C15's business): Get value/ok, Has,
   # and Has of every key of the alphabet; the Put flag and spill-before-drop are evaluated by the monitors
-  "runs": [{"component": "adapter", "labels": {2, 3, 4, 15}, "n_quick": 2000, "n_thorough": 20000}],
+  "runs": [{"component": "adapter", "labels": {2, 3, 4, 7, 8, 15, 18}, "n_quick": 2000, "n_thorough": 20000}],
   "anchors": ["storageCacherAdapter/storageCacherAdapter.go", "lrucache/capacity/capacityLRUCache.go", "memorydb/memorydb.go"],
   "exhaustive_claim": True,
-  "rule": "exhaustive: every op sequence of length 4 (quick) / 5 (thorough) over 10 op instances on keys a,b,c (Put 40/40/40/90/150/0 B, Get a, Get b, Has c, Peek a) for (cap,bytes) in {(2,100),(1,50),(3,100)}. "
-          "random: capacity {1,2,3,5}, byte capacity {1,50,100,2^40}, 3-6 keys each bound to one value (key e bound to the empty value in 1/6 of the histories), sizes {0,10,40,90,150}, 15-50 ops: Put 55-65%, Get 15%, Has 10%, Peek 10%; "
-          "1/8 of the histories add size -1 (rejected, outside the domain), 1/6 add Remove/Clear (outside the domain; the monitor forgets those keys). "
-          "non-trivial = spill (one / several), re-put grow/shrink, re-put-larger-spills, re-put of a spilled key, oversized single item, get-from-persister, empty-value-skipped, rejected negative size.",
+  "rule": "exhaustive: every op sequence of length 4 (quick) / 5 (thorough) over 10 op instances on keys a,b,c (Put 40/40/40/90/150/0 B, Get a, Get b, Has c, Peek a) and over 8 op instances "
+          "(HasOrAdd a/b/c 40 B, Put a 40 B, Put b 90 B, Close, Get a, Has a), each for (cap,bytes) in {(2,100),(1,50),(3,100)}. "
+          "random: capacity {1,2,3,5}, byte capacity {1,50,100,2^40}, 3-6 keys each bound to one value (key e bound to the empty value in 1/6 of the histories), sizes {0,10,40,90,150}, 15-50 ops: Put 40-50%, HasOrAdd 15%, "
+          "SizeInBytesContained/MaxSize 3%, Get 12%, Has 10%, Peek 10%; "
+          "1/8 of the histories add size -1 (rejected, outside the domain), 1/6 add Remove/Clear (outside the domain; the monitor forgets those keys), 1/5 Close the adapter at a random point and go on (further Closes 1/25 per op). "
+          "non-trivial = spill (one / several), re-put grow/shrink, re-put-larger-spills, re-put of a spilled key, oversized single item, get-from-persister, empty-value-skipped, rejected negative size, "
+          "hasoradd-inserted(-but-added-false)/-present-in-memory/-present-in-persister/-spills, close(-with-spilled-entries, -again), evicted-after-close-dropped, spilled-key-not-found-after-close, get-after-close-skips-persister.",
   "explanation": "Props/C17.v over the transcribed adapter + capacityLRU + map persister; differential run on return values, memory tier (Keys/Len/bytes/Peek), persister contents read directly, Has; "
-                 "monitors: every key put so far Has + found with its value in one of the tiers after every op, Get ops and a final Get sweep, spill-before-drop against the persister contents, Put flag against entries that left memory and against recorded persister writes.",
+                 "monitors: every key put so far (through Put or HasOrAdd) Has + found with its value in one of the tiers after every op, Get ops and a final Get sweep, spill-before-drop against the persister contents, Put flag against entries that left memory and against recorded persister writes; "
+                 "HasOrAdd: first flag = the key was in a consulted tier, a reported key changes nothing, an unreported key is in the memory tier afterwards, second flag = Put's flag (it is NOT 'inserted': C17_hasoradd_added_means_inserted_refuted); "
+                 "the property is about an OPEN persister: what Close does is stated exactly (C17_close, C17_close_freezes_persister, C17_closed_serves_memory_only, C17_spilled_then_closed_not_found; 'no loss after Close' refuted by witness) and monitored: "
+                 "after Close the persister contents never change, Has/Get/Keys answer from the memory tier alone, an evicted entry is dropped. Compared labels: Get value/ok, Has (also HasOrAdd's first flag), HasOrAdd's flags, Close's error, MaxSize, Has of every alphabet key.",
   "assumptions": ["values are non-empty byte strings (an empty serialisation is skipped by design: len(evictedValBytes)==0)", "sizes >= 0; each key bound to one immutable value",
-                  "persister open and never failing (memorydb); values implement SerializedStoredData, the marshaller is never reached",
-                  "Remove/Clear/Close and adapter.Len/Keys (numValuesInStorage) are modelled (Close is not) but are outside C17"],
+                  "persister never failing (memorydb, whose Close does nothing: its contents stay readable for the harness after adapter.Close); values implement SerializedStoredData, the marshaller is never reached",
+                  "the no-loss clause is claimed for histories that do not Close the adapter (the property says 'backed by an open persister'); after Close the exact behaviour is proved instead",
+                  "Remove/Clear and adapter.Len/Keys (numValuesInStorage) are modelled and compared in dev mode but are outside C17; RegisterHandler/UnRegisterHandler do nothing and are not driven"],
 }
 PROPS["C12"] = {
     "runs": [{"component": "immunity", "labels": {1, 2, 3, 4, 5, 6, 9, 16, 20, 21}, "n_quick": 2000, "n_thorough": 20000}],
